@@ -334,7 +334,7 @@ func genContents(t *rapid.T, c *BuildCase, o contentOpts) {
 					e.Dst = spell(clean, false)
 				}
 			case "dir", "dirslash", "flat":
-				u := genUnit(t, udir, lbl+".u", 1, 5, form != "flat", false, allowMeta)
+				u := genUnit(t, udir, lbl+".u", 1, 5, form != "flat", form != "flat", allowMeta) // symbolic links to directories inside a directory source are entries like any other link
 				c.Tree = append(c.Tree, u.nodes...)
 				e.Src = udir
 				e.Form = "dir"
@@ -349,7 +349,7 @@ func genContents(t *rapid.T, c *BuildCase, o contentOpts) {
 			default:
 				if c.DisableGlobbing {
 					// a pattern would be taken literally: fall back to a directory source
-					u := genUnit(t, udir, lbl+".u", 1, 4, true, false, allowMeta)
+					u := genUnit(t, udir, lbl+".u", 1, 4, true, true, allowMeta)
 					c.Tree = append(c.Tree, u.nodes...)
 					e.Src, e.Form, e.Dst = udir, "dir", spell(clean, false)
 					break
@@ -392,6 +392,11 @@ func genContents(t *rapid.T, c *BuildCase, o contentOpts) {
 			e.Type = "dir"
 			e.FI = genFileInfo(t, lbl+".fi", true)
 			e.Form = "none"
+			if rapid.IntRange(0, 3).Draw(t, lbl+".dirsrc") == 0 {
+				// mode (and mtime) taken from a directory of the build environment
+				c.Tree = append(c.Tree, FNode{Rel: udir, Kind: "dir", Mode: genDirMode(t, lbl+".dirsrc.mode"), MTime: genMTime(t, lbl+".dirsrc.mtime")})
+				e.Src = udir
+			}
 			if rapid.Bool().Draw(t, lbl+".onprefix") && !explicitDirs[prefix] && e.Packager == "" {
 				explicitDirs[prefix] = true
 				e.Dst = spell(prefix, true)
